@@ -4,44 +4,24 @@ From Gate Require Import Model Proofs.
 Open Scope N_scope.
 
 (* Full statement: the handler is invoked only for an authenticated identity when the route says so,
-   holding every required permission (or administrator). *)
-Definition C20_statement : Prop := gate_statement.
-
-(* It fails for ServeHTTP as coded: (1) a lightweight route that must authenticate
-   (LightWeight(true).Authentication(true)) runs its handler for a request without credentials;
-   (2) a route with required permissions whose authentication flag was cleared afterwards
-   (Permissions(p).Authentication(false)) runs its handler for a WRONG password of a user who holds p. *)
-Theorem C20_refuted : ~ C20_statement.
-Proof.
-  intros H. destruct gate_refuted_lightweight as (M & W & S & A).
-  destruct (H _ _ _ _ _ _ W S) as [H1 _]. rewrite (H1 M) in A. discriminate.
-Qed.
-
-Theorem C20_refuted_perms_unauth :
-  exists f c l ps, wf_cred c /\ perms f = Some ps /\ serve f c l true true None = Invoked /\ authed c = false.
-Proof.
-  destruct gate_refuted_perms_unauth as (P & W & S & A).
-  exists (build [Permissions [1]; Authentication false]), impostor, (fun _ => false), [1]. auto.
-Qed.
-
-(* For every flag combination that satisfies the decidable predicate safe_flags (not lightweight with
-   a requirement; permissions imply must-authenticate), every credential outcome, every outcome of
-   the other request checks and every body (absent, valid or invalid for the route's payload
-   validations): handler invoked -> authenticated when required, and authenticated with all required
-   permissions or administrator when permissions are required. *)
-Theorem C20_gate_partial :
+   holding every required permission (or administrator) - for EVERY flag combination, every credential
+   outcome, every outcome of the other request checks and every body. *)
+Definition C20_statement : Prop :=
   forall f c lookup0 media_ok post_ok body,
-    safe_flags f = true -> wf_cred c -> serve f c lookup0 media_ok post_ok body = Invoked ->
+    serve f c lookup0 media_ok post_ok body = Invoked ->
     (must_auth f = true -> authed c = true) /\
     (forall ps, perms f = Some ps ->
        authed c = true /\ (admin c = true \/ forallb (granted c) ps = true)).
+
+(* It holds for the repaired ServeHTTP (fix 443fbd75: a route needs an authenticated caller when
+   mustAuthenticate is set or permissions are named, lightweight or not). No guard on the flags. *)
+Theorem C20_gate : C20_statement.
 Proof. exact gate. Qed.
 
-(* A failed authentication or permission check is final on a non-lightweight route: whatever the
-   body and the payload validations of the route, the handler is not invoked afterwards. *)
+(* A failed authentication or permission check is final: whatever the body and the payload
+   validations of the route, the handler is not invoked afterwards. *)
 Theorem C20_rejected_not_invoked :
   forall f c lookup0 media_ok post_ok body,
-    lightweight f = false ->
     (must_auth f = true /\ authed c = false) \/
     (exists ps x, perms f = Some ps /\ admin c = false /\ In x ps /\ granted c x = false) ->
     serve f c lookup0 media_ok post_ok body <> Invoked.
@@ -49,45 +29,81 @@ Proof. exact rejected_not_invoked. Qed.
 
 (* Permissions are checked against the store as it is NOW: after any history of permission changes and
    requests, a user who at that moment holds neither a required permission p nor ego.root does not reach
-   the handler of a (non-lightweight) route requiring p - with a correct password or a cached token -
-   however the user's permissions looked earlier in the history. *)
+   the handler of a route requiring p - with a correct password or a cached token. *)
 Theorem C20_revoked_not_invoked :
   forall s0 h f u tk ps p,
-    lightweight f = false -> perms f = Some ps -> In p ps ->
+    perms f = Some ps -> In p ps ->
     memN p (perms_of (store_after s0 h) u) = false ->
     memN ROOT (perms_of (store_after s0 h) u) = false ->
     exists r, run_store s0 (h ++ [Request f u tk]) = run_store s0 h ++ [r] /\ r <> Invoked.
 Proof. exact revoked_not_invoked. Qed.
 
-Example C20_revocation_nonvacuous :
-  let f := build [Permissions [1]] in
-  run_store [] [SetPerms 7 [LOGON; 1]; Request f 7 false; Request f 7 true; SetPerms 7 [LOGON]; Request f 7 false; Request f 7 true]
-  = [Invoked; Invoked; Status 403; Status 403].
-Proof. reflexivity. Qed.
+(* Builder monotonicity, for every order of the calls (repaired LightWeight, fix 0c2c3c02): a requested
+   authentication (Authentication(true) or Permissions(..)) stays in force unless a LATER
+   Authentication(false) withdraws it explicitly ... *)
+Theorem C20_builder_monotone :
+  forall cs1 c cs2, requests_auth c = true ->
+    forallb (fun c => negb (auth_false c)) cs2 = true ->
+    must_auth (build (cs1 ++ c :: cs2)) = true.
+Proof. exact requested_kept. Qed.
 
-(* Builder: a declaration that never calls Authentication(false) or LightWeight(true) yields safe
-   flags, and must-authenticate whenever Authentication(true) or Permissions(..) was called -
-   whatever the order of the calls. *)
+(* ... and a declaration that names permissions anywhere needs an authenticated caller whatever else
+   it calls, also a later Authentication(false) or LightWeight(true). *)
+Theorem C20_permissions_imply_authentication :
+  forall cs, existsb is_perms cs = true -> needs_auth (build cs) = true.
+Proof. exact perms_imply_auth. Qed.
+
+(* Declarations without Authentication(false)/LightWeight(true) also satisfy the static predicate
+   safe_flags that the real route table is checked against. *)
 Theorem C20_builder_partial :
   forall cs, forallb (fun c => negb (withdraws c)) cs = true ->
     safe_flags (build cs) = true /\ lightweight (build cs) = false /\
     (existsb requests_auth cs = true -> must_auth (build cs) = true).
 Proof. exact builder_safe. Qed.
 
-(* the unguarded monotonicity claim fails: Authentication(true).LightWeight(true) drops the requirement *)
-Theorem C20_builder_refuted :
-  exists cs, existsb requests_auth cs = true /\ must_auth (build cs) = false.
-Proof. exists [Authentication true; LightWeight true]. exact builder_refuted. Qed.
+(* ---- before the repairs (kept as replayable witnesses) *)
+(* (1) LightWeight(true).Authentication(true) ran its handler for a request without credentials;
+   (2) Permissions(p).Authentication(false) ran it for a WRONG password of a user who holds p;
+   (3) Authentication(true).LightWeight(true) dropped the requirement in the builder. *)
+Theorem C20_old_refuted : ~ gate_statement_old.
+Proof.
+  intros H. destruct gate_old_refuted_lightweight as (M & W & S & A & _).
+  destruct (H _ _ _ _ _ _ W S) as [H1 _]. rewrite (H1 M) in A. discriminate.
+Qed.
+
+Theorem C20_old_refuted_perms_unauth :
+  exists f c l ps, wf_cred c /\ perms f = Some ps /\ serve_old f c l true true None = Invoked /\ authed c = false.
+Proof.
+  destruct gate_old_refuted_perms_unauth as (P & W & S & A & _).
+  exists (build [Permissions [1]; Authentication false]), impostor, (fun _ => false), [1]. auto.
+Qed.
+
+Theorem C20_builder_old_refuted :
+  exists cs, existsb requests_auth cs = true /\ must_auth (build_old cs) = false /\ must_auth (build cs) = true.
+Proof. exists [Authentication true; LightWeight true]. exact builder_old_refuted. Qed.
 
 Example C20_nonvacuous :
-  let f := build [CanAuthenticate true; Permissions [1;2]; ValidateUsing; Authentication true; Permissions [2;3]] in
+  let cs := [CanAuthenticate true; Permissions [1;2]; ValidateUsing; Authentication true; Permissions [2;3]] in
+  let f := build cs in
   let alice := mkCred false true false true [] (fun p => p <=? 3) in
   let bob := mkCred false true false true [3;1] (fun _ => true) in
-  safe_flags f = true /\ perms f = Some [1;2;3] /\ wf_cred alice /\
-  valid f = true /\
+  safe_flags f = true /\ perms f = Some [1;2;3] /\ valid f = true /\
   serve f alice (fun _ => false) true true (Some true) = Invoked /\
   serve f alice (fun _ => false) true true (Some false) = Status 400 /\
   serve f bob (fun _ => false) true true (Some true) = Status 403 /\
   serve f nobody (fun _ => false) true true (Some true) = Status 403 /\
-  forallb (fun c => negb (withdraws c)) [CanAuthenticate true; Permissions [1;2]; Authentication true; Permissions [2;3]] = true.
-Proof. cbn. repeat split; try reflexivity; intros H; try discriminate; auto. Qed.
+  (* the formerly unsafe declarations are enforced now *)
+  serve (build [LightWeight true; Authentication true]) nobody (fun _ => false) true true None = Status 403 /\
+  serve (build [LightWeight true; Authentication true]) alice (fun _ => false) true true None = Invoked /\
+  serve (build [Permissions [1]; Authentication false]) impostor (fun _ => false) true true None = Status 403 /\
+  must_auth (build [Permissions [1]; LightWeight true]) = true /\
+  needs_auth (build [Permissions [1]; Authentication false; LightWeight true]) = true /\
+  (* a lightweight route with nothing to enforce still skips authentication *)
+  serve (build [LightWeight true]) nobody (fun _ => false) true true None = Invoked.
+Proof. cbn. repeat split; reflexivity. Qed.
+
+Example C20_revocation_nonvacuous :
+  let f := build [Permissions [1]] in
+  run_store [] [SetPerms 7 [LOGON; 1]; Request f 7 false; Request f 7 true; SetPerms 7 [LOGON]; Request f 7 false; Request f 7 true]
+  = [Invoked; Invoked; Status 403; Status 403].
+Proof. reflexivity. Qed.
